@@ -197,8 +197,13 @@ func RunOpt(c Chooser, r Reporter, impl string, mk Factory, strict, readOnly, tr
 	x := &run{c: c, r: r, impl: impl, mk: mk, strict: strict, ro: readOnly, truncDetaches: truncDetaches}
 	sizes := []int{8, 0, 1, 3, 16, 64}
 	nroots := 1 + c.Draw(2)
+	big := c.Draw(30) == 0 // one run in thirty works on blobs beyond any chunk or window size an implementation may use
 	for i := 0; i < nroots; i++ {
-		data := fill(sizes[c.Draw(len(sizes))], i)
+		size := sizes[c.Draw(len(sizes))]
+		if big && i == 0 {
+			size = []int{70000, 140001}[c.Draw(2)]
+		}
+		data := fill(size, i)
 		o := &obj{impl: mk(data), root: &mroot{data: append([]byte(nil), data...)}, n: len(data), valid: true, name: fmt.Sprintf("b%d", i)}
 		x.objs = append(x.objs, o)
 	}
@@ -261,7 +266,11 @@ func (x *run) op() {
 		}
 		if c.Draw(4) == 0 {
 			// a source of another implementation: plain Go memory (what every Write of a []byte hands to Set)
-			data := fill([]int{3, 1, 0, 9, 20}[c.Draw(5)], 40+x.step)
+			size := []int{3, 1, 0, 9, 20}[c.Draw(5)]
+			if dst.n > 1000 && c.Draw(2) == 0 {
+				size = []int{40000, 70000}[c.Draw(2)]
+			}
+			data := fill(size, 40+x.step)
 			src = &obj{impl: blob.NewBytes(append([]byte(nil), data...)), root: &mroot{data: data}, n: len(data), valid: true, name: fmt.Sprintf("bytes[%d]", len(data))}
 		}
 		off := x.arg(dst.n)
